@@ -1,3 +1,10 @@
 import JominiModel.Props.C13
 open Jomini.Props.C13
 #print axioms C13_tables
+#print axioms C13_bin_roundtrip_date
+#print axioms C13_bin_roundtrip_datehour
+#print axioms C13_bin_roundtrip_needs_year_bound
+#print axioms C13_from_binary_reencode_datehour
+#print axioms C13_from_binary_reencode_date
+#print axioms C13_no_overflow_from_binary
+#print axioms C13_no_overflow_to_binary
